@@ -33,7 +33,7 @@ CONFIG = {
         "Go runtime behaviour outside the model: stack depth for deeply nested arrays, memory for very long inputs",
     ],
     "assumptions": [
-        "termination is observed on the real code by a 20 s per-op watchdog (the process is killed and the op reported); in "
+        "termination is observed on the real code by a 120 s per-op watchdog (the process is killed and the op reported); in "
         "the model it is a theorem (structural / well-founded recursion, no fuel)",
         "the position oracle judges tree nodes, fragments, diagnostics and the tokens of a lex up to its first error, never the "
         "EOF token: its position is not observable through the parser",
